@@ -31,6 +31,13 @@ FILES = {
     "src/is_5322_email.c": ["C01", "C12", "C16", "C06"],
     "bin/main.c": ["C20"],
     "bin/main.h": ["C20"],
+    # foreign back ends: not compiled by `make` here (so the suite cannot see any change); C18 builds them against the adapters
+    "partial/idn/eav.c": ["C18"],
+    "partial/idn/is_utf8_domain.c": ["C18"],
+    "partial/idn/is_6531_email.c": ["C18"],
+    "partial/idnkit/eav.c": ["C18"],
+    "partial/idnkit/is_utf8_domain.c": ["C18"],
+    "partial/idnkit/is_6531_email.c": ["C18"],
 }
 
 SWAPS = [(r"==", "!="), (r"!=", "=="), (r"<=", "<"), (r">=", ">"), (r"(?<![<>=!-])<(?![<=])", "<="), (r"(?<![<>=!-])>(?![>=])", ">="),
@@ -158,7 +165,7 @@ def main():
                                 break          # one killing check is enough
                             elif crc == 2:
                                 inc.append(c)
-                        rec["status"] = "killed-by-checks" if killed else "SURVIVED"
+                        rec["status"] = "killed-by-checks" if killed else ("inconclusive(build?)" if inc else "SURVIVED")
                         rec["killed_by"] = killed
                         rec["inconclusive"] = inc
                         print("%s:%d [%s] %s -> %s   %s" % (f, i + 1, what, old.strip()[:50], new.strip()[:50], rec["status"] + " " + ",".join(killed)), flush=True)
